@@ -565,6 +565,19 @@ def extract_biogeme():
                  'estimate: bootstrap loop changed')
             lb = [' '.join(U(x).split()) for x in loops[0].body if not isinstance(x, ast.If)]
             need(lb == ['x_br, _, _ = self.optimize(xstar)', 'self.bootstrap_results[b] = x_br'], f'estimate: body of the bootstrap loop changed: {lb}')
+            # the estimation data are handed back to the engine in the `finally` clause of the try that encloses the loop
+            # (a fault in a re-estimation must not leave the last resample in the engine)
+            tries = [n for n in ast.walk(s) if isinstance(n, ast.Try)]
+            need(len(tries) == 1 and any(loops[0] is x for x in ast.walk(ast.Module(body=tries[0].body, type_ignores=[]))) and not tries[0].handlers,
+                 'estimate: the bootstrap loop is not the body of a single try ... finally')
+            fin = [' '.join(U(x).split()) for x in tries[0].finalbody]
+            restore = ('if self.database.is_panel(): self.theC.setDataMap(self.database.individualMap) '
+                       'else: self.theC.setData(self.database.data)')
+            restores = restore in fin
+            after = [' '.join(U(x).split()) for x in s.body[s.body.index(tries[0]) + 1:]] if tries[0] in s.body else []
+            out['bootstrap_finally'] = (f'(* from src/biogeme/biogeme.py:{tries[0].lineno} BIOGEME.estimate: the finally clause of the bootstrap loop *)\n'
+                                        'Definition bootstrap_finally : list string :=\n  ' + coq_list([S(x) for x in fin], ';\n   ') + '.\n'
+                                        f'Definition bootstrap_restores_in_finally : bool := {coq_bool(restores)}.\n')
             boot = ['for b in range(self.bootstrap_samples):'] + lb
             out['bootstrap_skeleton'] = (f'(* from src/biogeme/biogeme.py:{s.lineno} BIOGEME.estimate: the bootstrap block *)\n'
                                          'Definition bootstrap_skeleton : list string :=\n  ' + coq_list([S(x) for x in boot], ';\n   ') + '.\n')
@@ -688,7 +701,7 @@ def gen_neglike_text():
            + coq_list([f'({S(w)}, {coq_list([f"({S(a)}, {S(b)})" for a, b in i["overrides"]])})'
                        for w, i in sorted(infos.items()) if not i['external']], ';\n   ') + '.\n',
            bio['algorithm_name'], bio['set_algorithm_parameters'], bio['function_parameters'], bio['estimate_skeleton'],
-           bio['bootstrap_skeleton'], bio['optimize_stores'], bio['buffers'],
+           bio['bootstrap_skeleton'], bio['bootstrap_finally'], bio['optimize_stores'], bio['buffers'],
            extract_raw_results(), extract_sections()]
     for t in out:
         if not all(ord(c) < 127 for c in t):
@@ -997,6 +1010,33 @@ def gen_bootstrap_runs(rng, problems, algorithms, n_problems):
                     r['bootstrap'] = rng.choice([2, 3])
                     r['np_seed'] = rng.randrange(1000)
                     runs.append(r)
+    return runs
+
+
+def gen_fault_runs(rng, problems, algorithms, n_problems):
+    """a bootstrap run interrupted by a fault (exception on entering, or in the middle of, its k-th re-estimation; first, middle
+    or last one; RuntimeError / KeyboardInterrupt / OptimizationError / BiogemeError), the exception is caught and the SAME
+    object is used again: estimate(), quick_estimate() or another bootstrap run -- which must concern the REAL data"""
+    runs = []
+    for pid in sorted(problems, key=lambda k: int(k[1:]))[:n_problems]:
+        p = problems[pid]
+        for bk in ('none', 'active'):
+            bounds = gen_bounds(rng, p, bk)
+            start = gen_start(rng, p, bounds, rng.choice(['zero', 'random', 'far']))
+            for a in algorithms:
+                B = rng.choice([2, 3, 4])
+                fault = ['bootstrap_fault', B, rng.randint(1, B), rng.choice(['optimize', 'derivatives']),
+                         rng.choice(['RuntimeError', 'KeyboardInterrupt', 'OptimizationError', 'BiogemeError']), rng.randrange(1000)]
+                r = make_run(pid, p, bounds, start, a, rng.random() < 0.5, None, None, {'bounds_kind': bk, 'start_kind': 'fault'},
+                             quick=rng.random() < 0.25)
+                r['pre'] = [fault]
+                if not r['quick'] and rng.random() < 0.3:
+                    r['bootstrap'] = 2
+                    r['np_seed'] = rng.randrange(1000)
+                if rng.random() < 0.3:
+                    o = {nm: f2h(v) for nm, v in zip(p['free'], gen_start(rng, p, bounds, 'random'))}
+                    r['post'] = [['eval', o, False]]
+                runs.append(r)
     return runs
 
 
@@ -1559,7 +1599,8 @@ def stream_estimate(ctx, n_problems=None, only=None, name='estimate'):
                     'with no bound / only upper bounds / guarding lower bounds and starts from which a Newton step lands in the undefined '
                     'region; + estimate(run_bootstrap=True) with 2-3 samples, with and without an iteration limit (1-3) too small for the '
                     'main estimation; + histories: further calls (derivatives at another point, check_derivatives, a second estimate / '
-                    'quick_estimate from another start) on the same BIOGEME object before and after the estimation; all runs with '
+                    'quick_estimate from another start, a bootstrap run interrupted by an injected fault in its k-th re-estimation) on the '
+                    'same BIOGEME object before and after the estimation; all runs with '
                     'recording spies on the external routines; a few combinations with non-default '
                     '[SimpleBounds] tolerance (1e-7, 1e-3) / steptol (1e-9; 0.1 for the algorithms without step test); 12% through '
                     'quick_estimate(); corpus/C07 first; non-trivial = convergence reported and the estimates differ from the start; '
@@ -1599,6 +1640,7 @@ def stream_estimate(ctx, n_problems=None, only=None, name='estimate'):
         runs += gen_tolerance_runs(rng, gen, algorithms, ctx.n(3, 40))
         runs += gen_bootstrap_runs(rng, gen, algorithms, ctx.n(3, 30))
         runs += gen_history_runs(rng, gen, algorithms, ctx.n(3, 40))
+        runs += gen_fault_runs(rng, gen, algorithms, ctx.n(3, 40))
         expo = {}
         for k in range(ctx.n(4, 40) if n_problems is None else max(2, n_problems // 4)):
             expo[f'e{k}'] = gen_expo_problem(rng)
